@@ -80,6 +80,7 @@ type prover struct {
 	idxPending []ssa.Value
 	inRefresh  bool
 	phiDepth   int
+	inWrapCheck bool
 }
 
 // refresh turns pending disequalities into inequalities once one side is known to bound the other.
@@ -583,7 +584,18 @@ func (p *prover) lin(v ssa.Value) linExpr {
 	case *ssa.BinOp:
 		switch t.Op {
 		case token.ADD:
-			return p.lin(t.X).add(p.lin(t.Y), 1)
+			l := p.lin(t.X).add(p.lin(t.Y), 1)
+			// arithmetic in a type narrower than 64 bits wraps around: the sum is the mathematical one only where
+			// it is shown to stay within the type (a uint16 counter compared with <= 65535 never leaves its loop)
+			if _, hi := typeRange(t.Type()); hi != nil && !p.inWrapCheck {
+				p.inWrapCheck = true
+				fits := p.proveRaw(newLin(*hi).add(l, -1))
+				p.inWrapCheck = false
+				if !fits {
+					break
+				}
+			}
+			return l
 		case token.SUB:
 			if lo, _ := typeRange(t.Type()); lo == nil {
 				return p.lin(t.X).add(p.lin(t.Y), -1)
